@@ -1,8 +1,16 @@
 #!/bin/bash
-# Pre-builds the harness to warm the Go build cache (offline).
-set -eu
+# Pre-builds everything the checks need, offline, to warm the Go build cache:
+# the plain harness, the instrumenter + overlay build, the -race build and the
+# C19 test binary. Each check re-builds (incrementally) on its own anyway.
+set -u
 cd "$(dirname "$0")"
 . ./env.sh
 mkdir -p .work/bin evidence replays
-(cd harness && go build -tags verif -o ../.work/bin/verifcheck ./cmd/verifcheck)
+(cd harness && go build -tags verif -o ../.work/bin/verifcheck ./cmd/verifcheck) || { echo "setup: harness build failed" >&2; exit 1; }
+(cd harness && go build -o ../.work/bin/instr ./instr) || { echo "setup: instrumenter build failed" >&2; exit 1; }
+(cd harness && go test -c -tags verif -vet=off -o ../.work/bin/c19.test ./c19test) || echo "setup: c19 test binary build failed (C19 will retry)" >&2
+(cd harness && go build -race -tags verif -o ../.work/bin/verifcheck-race ./cmd/verifcheck) 2>/dev/null || echo "setup: -race build unavailable (C17 aux pass will be skipped)" >&2
+# instrument + overlay build through the normal path (C20 is the cheapest overlay check)
+VERIF_OUT=$(pwd)/.work/setup-out ./run.sh C20 quick >/dev/null 2>&1 || echo "setup: overlay warm-up run did not pass (the check itself will report)" >&2
+rm -rf .work/setup-out
 echo setup ok
